@@ -64,7 +64,9 @@ class C13(Prop):
                     # replacements that do not concern the fs worker: throttle, keyboard, action handler, error handler
                     chs.append(r.choice([{"throttle": r.choice([10, 50])}, {"keyboard": r.random() < 0.5}, {"handler": True}, {"error_handler": True}]))
             fw = [r.choice(NAMES)] if r.random() < 0.2 else []
-            cases.append({"changes": chs, "fail_watch": fw, "fail_unwatch": [], "det": True})
+            # unregistering can fail too (generic failure, or the back-end says it has no such watch): reported like any other failure
+            fu = [r.choice(NAMES)] if r.random() < 0.25 else []
+            cases.append({"changes": chs, "fail_watch": fw, "fail_unwatch": fu, "det": True, "unwatch_kind": r.choice(["generic", "notfound"])})
         # changes in the middle of an apply phase and rapid successions: the final state must still converge
         for i in range(60 if tier == "quick" else 800):
             chs = [{"pathset": wp(rand_ps() or [("a", True)])}]
@@ -114,6 +116,7 @@ class C13(Prop):
             # some watcher back-ends name the path in the error they return: still one runtime error per failing attempt
             if c["fail_watch"] and r.random() < 0.5:
                 c["fail_with_path"] = True
+                c["fail_path_other"] = r.random() < 0.5       # the error names a path below the requested one
             # ... and some fail for lack of resources (the inotify watch limit): a runtime error like the others
             if c["fail_watch"]:
                 c["fail_kind"] = ["generic", "maxfiles", "enospc"][i % 3]
@@ -147,7 +150,8 @@ class C13(Prop):
                     k = f"(Some {dict(poll=1, poll2=2).get(ch['watcher'], 0)})"
                 chs.append(f"({ps}, {k})")
             fw = coq_list([str(IDS[x]) for x in case["fail_watch"]])
-            terms.append(f"(eval_fs {fw} [] {coq_list(chs)})%N")
+            fu = coq_list([str(IDS[x]) for x in case["fail_unwatch"]])
+            terms.append(f"(eval_fs {fw} {fu} {coq_list(chs)})%N")
         res, err = coq_eval("c13", ["Fs.FsWorker", "Run.EvalC13"], terms)
         if err:
             c.errors.append("model evaluation failed: " + err[-800:])
@@ -185,7 +189,7 @@ class C13(Prop):
             got = impl_final(o)
             if len(o["alive"]) > 1:
                 c.failing.append({"case": case, "impl": o["alive"], "clause": "C13: more than one live watcher"})
-            if got != want:
+            if got != want and not case["fail_unwatch"]:      # (a path whose unregistration is made to fail stays registered: judged by the model)
                 c.failing.append({"case": case, "impl": got, "expected": want,
                                   "clause": "C13_converges: after the last change the registered paths differ from the configured path set"})
             if case["det"]:
@@ -205,7 +209,7 @@ class C13(Prop):
                         ok = args[1] not in case["fail_watch"]
                         calls.append(f"watch({IDS[args[1]]}:{args[2]})" + ("" if ok else "!"))
                     else:
-                        calls.append(f"unwatch({IDS[args[1]]}:?)")
+                        calls.append(f"unwatch({IDS[args[1]]}:?)" + ("!" if args[1] in case["fail_unwatch"] else ""))
                 mcalls, mfinal, merr = m.split(" | ")
                 mcalls_n = mcalls.replace(":r)", ":?)").replace(":n)", ":?)") if False else mcalls
                 # the harness does not see the mode of an unwatch call: erase it on the model side
@@ -234,11 +238,14 @@ class C13(Prop):
                     kind_, rest = mf.split("[", 1)
                     mf_sorted = kind_ + "[" + ",".join(sorted(x for x in rest.rstrip("]").split(",") if x)) + "]"
                 nerr = len(o["errors"])
-                if impl_calls_n == mcalls_n and got == mf_sorted and merr == f"errors={nerr}":
+                # (a path whose unregistration is made to fail: the recording watcher, like notify, keys registrations by path, the model by
+                #  path and mode -- the final sets are compared only when no unregistration fails; calls and errors always)
+                if impl_calls_n == mcalls_n and (got == mf_sorted or case["fail_unwatch"]) and merr == f"errors={nerr}":
                     c.validated += 1
                 else:
                     c.disagreements.append({"case": case, "impl": {"calls": impl_calls, "final": got, "errors": nerr}, "model": m, "what": "fs worker calls / registration"})
-                nfail = sum(1 for x in o["calls"] if x.startswith("watch(") and x.split(",")[1] in case["fail_watch"])
+                nfail = sum(1 for x in o["calls"] if x.startswith("watch(") and x.split(",")[1] in case["fail_watch"]) + \
+                    sum(1 for x in o["calls"] if x.startswith("unwatch(") and x.split(",")[1].rstrip(")") in case["fail_unwatch"])
                 if nerr != nfail:
                     c.failing.append({"case": case, "impl": {"errors": nerr, "failing_attempts": nfail},
                                       "clause": "C13_error_per_attempt: runtime errors differ from the number of failing registration attempts"})
